@@ -190,6 +190,17 @@ Theorem C15_registry : forall ops n,
 Proof. exact registry_laws. Qed.
 Print Assumptions C15_registry.
 
+(* Teardown (Stop with closures queued, Posts after Stop - every schedule with a Stop thread is
+   among the reachable states above): in EVERY state, the only step that executes a closure is
+   the consumer's; it executes the head of the queue and nothing else, one closure per step;
+   Post, Stop and the consumer's exit execute nothing; after the consumer has ended nothing is
+   executed any more, whatever is still queued.  With C15_exactly_once (at most once, FIFO,
+   stopped_quiescent): a closure queued at Stop is run by the consumer before it ends, or never
+   - never elsewhere. *)
+Theorem C15_only_consumer_executes : forall s, only_consumer_executes s.
+Proof. exact only_consumer_executes_holds. Qed.
+Print Assumptions C15_only_consumer_executes.
+
 (* What closures panic WITH is a parameter of the programs ([KPanicV v]; every theorem above
    quantifies over it).  Frame: programs that differ only in panic values behave alike under
    every schedule - same closures executed / queued / accepted / rejected, the consumer alive in
